@@ -64,11 +64,13 @@ def _categorize(rule: dict[str, Any], res_type: str | None) -> int | None:
     rtypes = _resource_types(rule)
     if not _type_matches(rtypes, res_type):
         return None
-    if res_type in rtypes and _has_id(rule):
+    # a request without a resource type is named by no rule (None in rtypes means wildcard)
+    named = res_type is not None and res_type in rtypes
+    if named and _has_id(rule):
         return 0
-    if res_type in rtypes and _has_attrs(rule):
+    if named and _has_attrs(rule):
         return 1
-    if res_type in rtypes:
+    if named:
         return 2
     return 3
 
